@@ -314,23 +314,23 @@ fn deleg_try_forms() {
     match which {
         0 => {
             let r = s.try_reserve(n);
-            obl!(called_once_on(&s) && unsafe { D_A0 } == n && r.is_err() == unsafe { D_ERR }, "deleg.try_reserve", "C01,C05,C06,C11,C12");
+            sobl!(called_once_on(&s) && unsafe { D_A0 } == n && r.is_err() == unsafe { D_ERR }, "deleg.try_reserve", "C01,C05,C06,C11,C12");
         }
         1 => {
             let r = s.try_shrink_to(n);
-            obl!(called_once_on(&s) && unsafe { D_A0 } == n && r.is_err() == unsafe { D_ERR }, "deleg.try_shrink_to", "C01,C05,C06,C13");
+            sobl!(called_once_on(&s) && unsafe { D_A0 } == n && r.is_err() == unsafe { D_ERR }, "deleg.try_shrink_to", "C01,C05,C06,C13");
         }
         2 => {
             let r = s.try_shrink_to_fit();
-            obl!(called_once_on(&s) && unsafe { D_A0 } == 0 && r.is_err() == unsafe { D_ERR }, "deleg.try_shrink_to_fit_is_shrink_to_0", "C01,C13");
+            sobl!(called_once_on(&s) && unsafe { D_A0 } == 0 && r.is_err() == unsafe { D_ERR }, "deleg.try_shrink_to_fit_is_shrink_to_0", "C01,C13");
         }
         3 => {
             let r = s.try_truncate(n);
-            obl!(called_once_on(&s) && unsafe { D_A0 } == n && r.is_err() == unsafe { D_ERR }, "deleg.try_truncate", "C01,C07");
+            sobl!(called_once_on(&s) && unsafe { D_A0 } == n && r.is_err() == unsafe { D_ERR }, "deleg.try_truncate", "C01,C07");
         }
         4 => {
             let r = s.try_push_str(arg);
-            obl!(
+            sobl!(
                 called_once_on(&s) && unsafe { D_SP } == arg.as_ptr() && unsafe { D_SN } == k && r.is_err() == unsafe { D_ERR },
                 "deleg.try_push_str",
                 "C01,C05,C06,C09,C11,C12"
@@ -338,7 +338,7 @@ fn deleg_try_forms() {
         }
         5 => {
             let r = s.try_insert_str(n, arg);
-            obl!(
+            sobl!(
                 called_once_on(&s) && unsafe { D_A0 } == n && unsafe { D_SP } == arg.as_ptr() && unsafe { D_SN } == k && r.is_err() == unsafe { D_ERR },
                 "deleg.try_insert_str",
                 "C01,C05,C06,C07,C09,C11,C12"
@@ -351,7 +351,7 @@ fn deleg_try_forms() {
                 Ok(None) => unsafe { !D_ERR && D_CH == u32::MAX },
                 Ok(Some(c)) => unsafe { !D_ERR && D_CH == c as u32 },
             };
-            obl!(called_once_on(&s) && ok, "deleg.try_pop", "C01");
+            sobl!(called_once_on(&s) && ok, "deleg.try_pop", "C01");
         }
         7 => {
             let r = s.try_remove(n);
@@ -359,7 +359,7 @@ fn deleg_try_forms() {
                 Err(_) => unsafe { D_ERR },
                 Ok(c) => unsafe { !D_ERR && D_CH == c as u32 },
             };
-            obl!(called_once_on(&s) && unsafe { D_A0 } == n && ok, "deleg.try_remove", "C01,C07");
+            sobl!(called_once_on(&s) && unsafe { D_A0 } == n && ok, "deleg.try_remove", "C01,C07");
         }
         8 => {
             let r = s.try_push(ch);
@@ -372,7 +372,7 @@ fn deleg_try_forms() {
                 }
                 i += 1;
             }
-            obl!(called_once_on(&s) && same && r.is_err() == unsafe { D_ERR }, "deleg.try_push_is_push_str_of_utf8_encoding", "C01,C05,C09,C11,C12");
+            sobl!(called_once_on(&s) && same && r.is_err() == unsafe { D_ERR }, "deleg.try_push_is_push_str_of_utf8_encoding", "C01,C05,C09,C11,C12");
         }
         9 => {
             let r = s.try_insert(n, ch);
@@ -385,11 +385,11 @@ fn deleg_try_forms() {
                 }
                 i += 1;
             }
-            obl!(called_once_on(&s) && same && r.is_err() == unsafe { D_ERR }, "deleg.try_insert_is_insert_str_of_utf8_encoding", "C01,C05,C07,C09,C11,C12");
+            sobl!(called_once_on(&s) && same && r.is_err() == unsafe { D_ERR }, "deleg.try_insert_is_insert_str_of_utf8_encoding", "C01,C05,C07,C09,C11,C12");
         }
         _ => {
             let r = LeanString::try_with_capacity(n);
-            obl!(unsafe { D_CALLS == 1 && D_A0 == n } && r.is_err() == unsafe { D_ERR }, "deleg.try_with_capacity", "C01,C05,C06");
+            sobl!(unsafe { D_CALLS == 1 && D_A0 == n } && r.is_err() == unsafe { D_ERR }, "deleg.try_with_capacity", "C01,C05,C06");
             if let Ok(x) = r {
                 core::mem::forget(x);
             }
@@ -427,7 +427,7 @@ fn deleg_plain_forms() {
         5 => s.insert_str(n, arg),
         6 => {
             let c = s.pop();
-            obl!(
+            sobl!(
                 match c { None => unsafe { D_CH == u32::MAX }, Some(c) => unsafe { D_CH == c as u32 } },
                 "deleg.pop_returns_callee_value",
                 "C01"
@@ -435,40 +435,40 @@ fn deleg_plain_forms() {
         }
         7 => {
             let c = s.remove(n);
-            obl!(unsafe { D_CH == c as u32 && D_A0 == n }, "deleg.remove_returns_callee_value", "C01,C07");
+            sobl!(unsafe { D_CH == c as u32 && D_A0 == n }, "deleg.remove_returns_callee_value", "C01,C07");
         }
         8 => s.push(ch),
         9 => s.insert(n, ch),
         10 => {
             use core::fmt::Write;
             let r = s.write_str(arg);
-            obl!(r.is_ok() && unsafe { D_SP } == arg.as_ptr() && unsafe { D_SN } == k, "deleg.write_str_is_push_str", "C01,C15");
+            sobl!(r.is_ok() && unsafe { D_SP } == arg.as_ptr() && unsafe { D_SN } == k, "deleg.write_str_is_push_str", "C01,C15");
         }
         11 => {
             s += arg;
-            obl!(unsafe { D_SP } == arg.as_ptr() && unsafe { D_SN } == k, "deleg.add_assign_is_push_str", "C01");
+            sobl!(unsafe { D_SP } == arg.as_ptr() && unsafe { D_SN } == k, "deleg.add_assign_is_push_str", "C01");
         }
         12 => {
             let t = core::mem::replace(&mut s, LeanString::new());
             let t = t + arg;
-            obl!(unsafe { D_CALLS == 1 && D_SP == arg.as_ptr() && D_SN == k }, "deleg.add_is_push_str", "C01");
+            sobl!(unsafe { D_CALLS == 1 && D_SP == arg.as_ptr() && D_SN == k }, "deleg.add_is_push_str", "C01");
             core::mem::forget(t);
             core::mem::forget(s);
-            obl!(unsafe { !D_ERR }, "deleg.plain_form_panics_iff_callee_err", "C05,C06");
+            sobl!(unsafe { !D_ERR }, "deleg.plain_form_panics_iff_callee_err", "C05,C06");
             return;
         }
         _ => {
             let x = LeanString::with_capacity(n);
-            obl!(unsafe { D_CALLS == 1 && D_A0 == n }, "deleg.with_capacity", "C01,C06");
+            sobl!(unsafe { D_CALLS == 1 && D_A0 == n }, "deleg.with_capacity", "C01,C06");
             core::mem::forget(x);
             core::mem::forget(s);
-            obl!(unsafe { !D_ERR }, "deleg.plain_form_panics_iff_callee_err", "C05,C06");
+            sobl!(unsafe { !D_ERR }, "deleg.plain_form_panics_iff_callee_err", "C05,C06");
             return;
         }
     }
     // reached only when the plain form returned: the callee must have reported Ok
-    obl!(unsafe { !D_ERR }, "deleg.plain_form_panics_iff_callee_err", "C05,C06");
-    obl!(called_once_on(&s), "deleg.plain_form_calls_callee_once", "C01,C09,C11,C12,C13");
+    sobl!(unsafe { !D_ERR }, "deleg.plain_form_panics_iff_callee_err", "C05,C06");
+    sobl!(called_once_on(&s), "deleg.plain_form_calls_callee_once", "C01,C09,C11,C12,C13");
     core::mem::forget(s);
 }
 
@@ -480,15 +480,15 @@ fn deleg_readers() {
     use core::ops::Deref;
     let (s, g) = ls(any_repr(REACH_CAP));
     let tp = text_ptr(&s.0, &g);
-    obl!(s.len() == g.len && s.is_empty() == (g.len == 0) && s.capacity() == g.cap, "deleg.len_is_empty_capacity", "C01,C11");
-    obl!(s.is_heap_allocated() == (g.kind == K_HEAP), "deleg.is_heap_allocated", "C09");
-    obl!(s.as_str().as_ptr() == tp && s.as_str().len() == g.len, "deleg.as_str", "C01,C17");
-    obl!(s.as_bytes().as_ptr() == tp && s.as_bytes().len() == g.len, "deleg.as_bytes", "C01,C17");
+    sobl!(s.len() == g.len && s.is_empty() == (g.len == 0) && s.capacity() == g.cap, "deleg.len_is_empty_capacity", "C01,C11");
+    sobl!(s.is_heap_allocated() == (g.kind == K_HEAP), "deleg.is_heap_allocated", "C09");
+    sobl!(s.as_str().as_ptr() == tp && s.as_str().len() == g.len, "deleg.as_str", "C01,C17");
+    sobl!(s.as_bytes().as_ptr() == tp && s.as_bytes().len() == g.len, "deleg.as_bytes", "C01,C17");
     let d: &str = s.deref();
     let a: &str = s.as_ref();
     let b: &str = s.borrow();
     let ab: &[u8] = s.as_ref();
-    obl!(
+    sobl!(
         d.as_ptr() == tp && d.len() == g.len && a.as_ptr() == tp && a.len() == g.len && b.as_ptr() == tp && b.len() == g.len && ab.as_ptr() == tp && ab.len() == g.len,
         "deleg.deref_asref_borrow_are_as_str",
         "C17"
@@ -593,9 +593,9 @@ fn extend_chars() {
         s.extend(it);
         s
     };
-    obl!(unsafe { E_RESERVE_CALLS == 1 && E_RESERVE_ARG == hint }, "extend.reserves_size_hint_lower_bound_once", "C06");
-    obl!(unsafe { E_FIRST_PUSH_AFTER_RESERVE }, "extend.reserve_comes_first", "C06");
-    obl!(unsafe { E_PUSH_CALLS } == n, "extend.pushes_every_item_once", "C01");
+    sobl!(unsafe { E_RESERVE_CALLS == 1 && E_RESERVE_ARG == hint }, "extend.reserves_size_hint_lower_bound_once", "C06");
+    sobl!(unsafe { E_FIRST_PUSH_AFTER_RESERVE }, "extend.reserve_comes_first", "C06");
+    sobl!(unsafe { E_PUSH_CALLS } == n, "extend.pushes_every_item_once", "C01");
     let mut ok = true;
     let mut i = 0;
     while i < 3 {
@@ -604,6 +604,6 @@ fn extend_chars() {
         }
         i += 1;
     }
-    obl!(ok, "extend.pushes_items_in_order_utf8_encoded", "C01");
+    sobl!(ok, "extend.pushes_items_in_order_utf8_encoded", "C01");
     core::mem::forget(s);
 }
